@@ -9,6 +9,9 @@
  * Part B: every vnaconv function once with separate and aliased buffers.
  * Part C (short histories): every ordered pair (thorough: triple) of
  * state-changing operations on the rich fixture, then teardown.
+ * Part D (property-tree histories): every sequence of 3 (thorough: 4) of 26
+ * set / delete / set_subtree / copy calls on a small tree, then walk, copy,
+ * delete.
  * Oracle: process survives, ASan/UBSan silent, call returns, invalid calls
  * return the documented failure value, after the free functions the
  * allocation accounting is back at the baseline.  No numeric oracle.
@@ -411,14 +414,143 @@ static void run_hist(int tier, long idx, vf_result *r)
     vf_exec_end(r, mark);
 }
 
-static long n_sweep, n_conv, n_hist;
+/* ---- Part D: property-tree histories --------------------------------- */
+/*
+ * Every sequence of 3 (thorough: 4) of these calls on a small tree
+ * { l: [a, b, c], m: {k: v}, s: x }; after the sequence the tree is walked
+ * completely (export), copied, and deleted.  Deleting first, middle and last
+ * elements, then growing by index with and without a hole, by append and by
+ * insert, is what moves the list's length against its allocation.
+ */
+static const char *const vpd_ops[] = {
+    "Sl[0]=n", "Sl[1]=n", "Sl[2]=n", "Sl[3]=n", "Sl[5]=n", "Sl[+]=n",
+    "Sl[0+]=n", "Sl[2+]=n", "Dl[0]", "Dl[1]", "Dl[2]", "Dl[3]", "Dl",
+    "Tl[1]", "Tl[2]", "Tl[4]", "Sl[1].k=n", "Sl[3][1]=n", "Sm.k=n",
+    "Sm.j=n", "Dm.k", "Dm", "Sm[0]=n", "Ss.t=n", "D.", "C",
+};
+#define VPD_NOPS ((int)(sizeof(vpd_ops) / sizeof(vpd_ops[0])))
+static int vpd_depth(int tier) { return tier ? 4 : 3; }
+static long vpd_count(int tier)
+{
+    long n = 1;
+    for (int d = 0; d < vpd_depth(tier) - 1; ++d)
+	n *= VPD_NOPS;
+    return n;		/* one case = all continuations of a prefix */
+}
+
+static int vpd_walk(const vnaproperty_t *root)
+{
+    /* reads every node: type, count, keys, values */
+    int n = 0;
+    switch (vnaproperty_type(root, ".")) {
+    case 'm': {
+	const char **keys = vnaproperty_keys(root, "{}");
+	if (keys == NULL)
+	    return 0;
+	for (const char **k = keys; *k != NULL; ++k) {
+	    char *q = vnaproperty_quote_key(*k);
+	    if (q != NULL) {
+		n += 1 + vpd_walk(vnaproperty_get_subtree(root, "%s", q));
+		vf_free(q);
+	    }
+	}
+	vf_free(keys);
+	break;
+    }
+    case 'l': {
+	int c = vnaproperty_count(root, "[]");
+	for (int i = 0; i < c; ++i)
+	    n += 1 + vpd_walk(vnaproperty_get_subtree(root, "[%d]", i));
+	break;
+    }
+    case 's': {
+	const char *v = vnaproperty_get(root, ".");
+	n += v != NULL ? (int)strlen(v) : 0;
+	break;
+    }
+    default:
+	break;
+    }
+    return n;
+}
+
+static void run_vpd(int tier, long idx, vf_result *r)
+{
+    int n = vpd_depth(tier), seq[4];
+    char b[200];
+    size_t off = 0;
+    long nodes = 0;
+    unsigned long mark;
+
+    for (int d = n - 2; d >= 0; --d)
+	seq[d] = vf_digit(&idx, VPD_NOPS);
+    b[0] = '\0';
+    for (int d = 0; d < n - 1; ++d)
+	off += (size_t)snprintf(b + off, sizeof(b) - off, "%s%s",
+		d ? " ; " : "", vpd_ops[seq[d]]);
+    vf_desc(r, "property tree {l:[a,b,c], m:{k:v}, s:x}: %s ; every one of "
+	    "%d last calls ; walk ; copy ; delete", b, VPD_NOPS);
+    mark = vf_exec_begin();
+    for (int last = 0; last < VPD_NOPS; ++last) {
+	vnaproperty_t *root = NULL, *root2 = NULL;
+
+	seq[n - 1] = last;
+	if (vnaproperty_set(&root, "l[0]=a") == -1 ||
+		vnaproperty_set(&root, "l[1]=b") == -1 ||
+		vnaproperty_set(&root, "l[2]=c") == -1 ||
+		vnaproperty_set(&root, "m.k=v") == -1 ||
+		vnaproperty_set(&root, "s=x") == -1) {
+	    vf_fail(r, "fixture", "building the property tree failed");
+	    (void)vnaproperty_delete(&root, ".");
+	    break;
+	}
+	for (int d = 0; d < n; ++d) {
+	    const char *o = vpd_ops[seq[d]];
+	    switch (o[0]) {
+	    case 'S':
+		(void)vnaproperty_set(&root, "%s", o + 1);
+		break;
+	    case 'D':
+		(void)vnaproperty_delete(&root, "%s", o + 1);
+		break;
+	    case 'T': {
+		vnaproperty_t **pp = vnaproperty_set_subtree(&root, "%s",
+			o + 1);
+		if (pp != NULL)
+		    (void)vnaproperty_set(pp, "sub[1]=t");
+		break;
+	    }
+	    default:
+		if (vnaproperty_copy(&root2, root) == 0) {
+		    nodes += vpd_walk(root2);
+		    (void)vnaproperty_delete(&root2, ".");
+		}
+		break;
+	    }
+	    ++r->transitions;
+	}
+	nodes += vpd_walk(root);
+	if (vnaproperty_copy(&root2, root) == 0) {
+	    nodes += vpd_walk(root2);
+	    (void)vnaproperty_delete(&root2, ".");
+	}
+	(void)vnaproperty_delete(&root, ".");
+    }
+    r->nontrivial = 1;
+    r->states = nodes;
+    vf_outcome(r, "property histories survived");
+    vf_exec_end(r, mark);
+}
+
+static long n_sweep, n_conv, n_hist, n_vpd;
 
 static long count(int tier)
 {
     n_sweep = c3_sweep_count(tier);
     n_conv = C3_NCONV;
     n_hist = hist_count(tier);
-    return n_sweep + n_conv + n_hist;
+    n_vpd = vpd_count(tier);
+    return n_sweep + n_conv + n_hist + n_vpd;
 }
 
 static void init(int tier)
@@ -432,8 +564,10 @@ static void run(int tier, long idx, vf_result *r)
 	c3_run_sweep(MODE_C03, tier, idx, r);
     else if (idx < n_sweep + n_conv)
 	c3_run_conv((int)(idx - n_sweep), r);
-    else
+    else if (idx < n_sweep + n_conv + n_hist)
 	run_hist(tier, idx - n_sweep - n_conv, r);
+    else
+	run_vpd(tier, idx - n_sweep - n_conv - n_hist, r);
 }
 
 vf_driver vf_drv = {
@@ -443,7 +577,9 @@ vf_driver vf_drv = {
 	"vnaconv functions) with 0, 1 or (thorough) 2 arguments moved to a "
 	"value of their boundary domain, on a freshly built rich fixture; or "
 	"one ordered pair (thorough: triple) of 74 state-changing operations "
-	"followed by a full query of every object and teardown.  Non-trivial: "
+	"followed by a full query of every object and teardown; or all "
+	"sequences of 3 (thorough: 4) of 26 property-tree calls sharing one "
+	"prefix, each followed by a walk, a copy and the delete.  Non-trivial: "
 	"the fully valid call, every call that must fail by the documentation "
 	"(return value compared), and every history; alternative-value calls "
 	"only count as survived.  'transitions' counts library calls judged",
